@@ -1,0 +1,53 @@
+//go:build verif
+
+package gff
+
+// Contracts for the deductive verifier in /verif (govc). This file is only
+// compiled with -tags verif; it adds no behaviour to the package.
+
+// unsafeString: identity cast of the bytes (trusted; the unsafe conversion itself is not modelled).
+//@ func unsafeString
+//@   trusted
+//@   pure
+//@   ensures len(result) == len(b) && forall i int :: 0 <= i && i < len(b) ==> result[i] == b[i]
+
+// handlePanic turns error-valued panics (csv.ParseError etc.) into a returned error and re-raises everything else.
+//@ func handlePanic
+//@   property C03
+//@   recovers
+//@   requires f != nil && err != nil
+//@   panics   recovered() != nil && (!implements(recovered(), error) || implements(recovered(), runtime.Error))
+//@   ensures  recovered() == nil ==> *f == old(*f) && *err == old(*err)
+//@   ensures  recovered() != nil ==> *err == recovered() && *f == nil
+//@   assigns  *f, *err
+
+//@ func (*Reader).Read
+//@   property C03
+//@   requires r != nil && r.r != nil
+//@   ensures [value-or-error] f != nil || err != nil
+//@   loop 1 invariant r != nil && r.r != nil
+
+//@ func (*Reader).commentMetaline
+//@   property C03
+//@   throws
+//@   requires r != nil && r.r != nil
+//@   ensures [value-or-error] f != nil || err != nil
+
+//@ func (*Reader).metaSeq
+//@   property C03
+//@   requires r != nil && r.r != nil
+//@   ensures [value-or-error] result0 != nil || result1 != nil
+//@   loop 1 invariant r != nil && r.r != nil
+
+//@ func splitAnnot
+//@   property C03
+//@   throws
+//@   ensures len(tag) <= len(f) && len(value) <= len(f)
+//@   loop 1 invariant 0 <= idx && idx <= len(f) && (idx > 0 ==> 0 <= i && i < len(f)) && (split ==> idx > 0)
+//@   loop 1 invariant len(tag) <= len(f)
+
+//@ func mustAtoa
+//@   property C03
+//@   throws
+//@   requires 0 <= index && index < len(f)
+//@   loop 1 invariant 0 <= idx && idx <= len(c)
